@@ -165,4 +165,52 @@ theorem skel_NewOAuthProxy_ok : skel_NewOAuthProxy = ([
   "fmt.Errorf",
   "return p, nil"] : List String) := rfl
 
+theorem flags_bypass_ok : flags_bypass = ([
+  "StringSlice api-route = []string{}",
+  "Bool force-https = false",
+  "String real-client-ip-header = \"X-Real-IP\"",
+  "Bool reverse-proxy = false",
+  "Bool skip-auth-preflight = false",
+  "StringSlice skip-auth-regex = []string{}",
+  "StringSlice skip-auth-route = []string{}",
+  "Bool skip-auth-strip-headers = true",
+  "StringSlice trusted-ip = []string{}"] : List String) := rfl
+
+theorem optionTags_bypass_ok : optionTags_bypass = ([
+  "api-route api_routes Options.APIRoutes []string",
+  "force-https force_https Options.ForceHTTPS bool",
+  "real-client-ip-header real_client_ip_header Options.RealClientIPHeader string",
+  "reverse-proxy reverse_proxy Options.ReverseProxy bool",
+  "skip-auth-preflight skip_auth_preflight Options.SkipAuthPreflight bool",
+  "skip-auth-regex skip_auth_regex Options.SkipAuthRegex []string",
+  "skip-auth-route skip_auth_routes Options.SkipAuthRoutes []string",
+  "skip-auth-strip-headers skip_auth_strip_headers LegacyHeaders.SkipAuthStripHeaders bool",
+  "trusted-ip trusted_ips Options.TrustedIPs []string"] : List String) := rfl
+
+theorem cfgText_loader_ok : cfgText_loader = ([
+  "func loadConfiguration {",
+  "{ if alphaConfig != \"\" { logger.Printf(\"WARNING: You are using alpha configuration. The structure in this configuration file may change without notice. You MUST remove conflicting options from your existing configuration.\") return loadAlphaOptions(config, alphaConfig, extraFlags, args) } return loadLegacyOptions(config, extraFlags, args) }",
+  "func loadLegacyOptions {",
+  "{ optionsFlagSet := options.NewLegacyFlagSet() optionsFlagSet.AddFlagSet(extraFlags) if err := optionsFlagSet.Parse(args); err != nil { return nil, fmt.Errorf(\"failed to parse flags: %v\", err) } legacyOpts := options.NewLegacyOptions() if err := options.Load(config, optionsFlagSet, legacyOpts); err != nil { return nil, fmt.Errorf(\"failed to load config: %v\", err) } opts, err := legacyOpts.ToOptions() if err != nil { return nil, fmt.Errorf(\"failed to convert config: %v\", err) } return opts, nil }",
+  "func loadAlphaOptions {",
+  "{ opts, err := loadOptions(config, extraFlags, args) if err != nil { return nil, fmt.Errorf(\"failed to load core options: %v\", err) } alphaOpts := &options.AlphaOptions{} if err := options.LoadYAML(alphaConfig, alphaOpts); err != nil { return nil, fmt.Errorf(\"failed to load alpha options: %v\", err) } alphaOpts.MergeInto(opts) return opts, nil }",
+  "func loadOptions {",
+  "{ optionsFlagSet := options.NewFlagSet() optionsFlagSet.AddFlagSet(extraFlags) if err := optionsFlagSet.Parse(args); err != nil { return nil, fmt.Errorf(\"failed to parse flags: %v\", err) } opts := options.NewOptions() if err := options.Load(config, optionsFlagSet, opts); err != nil { return nil, fmt.Errorf(\"failed to load config: %v\", err) } return opts, nil }",
+  "func Load {",
+  "{ v := viper.New() v.SetConfigFile(configFileName) v.SetConfigType(\"toml\") v.SetEnvPrefix(\"OAUTH2_PROXY\") v.AutomaticEnv() v.SetTypeByDefaultValue(true) if configFileName != \"\" { err := v.ReadInConfig() if err != nil { return fmt.Errorf(\"unable to load config file: %w\", err) } } err := registerFlags(v, \"\", flagSet, into) if err != nil { return fmt.Errorf(\"unable to register flags: %w\", err) } err = v.UnmarshalExact(into, decodeFromCfgTag) if err != nil { return fmt.Errorf(\"error unmarshalling config: %w\", err) } return nil }",
+  "func registerFlags {",
+  "{ val := reflect.ValueOf(options) var typ reflect.Type if val.Kind() == reflect.Ptr { typ = val.Elem().Type() } else { typ = val.Type() } for i := 0; i < typ.NumField(); i++ { field := typ.Field(i) fieldV := reflect.Indirect(val).Field(i) fieldName := strings.Join([]string{prefix, field.Name}, \".\") cfgName := field.Tag.Get(\"cfg\") if cfgName == \",internal\" { continue } if isUnexported(field.Name) { continue } if field.Type.Kind() == reflect.Struct { if cfgName != \",squash\" { return fmt.Errorf(\"field %q does not have required cfg tag: `,squash`\", fieldName) } err := registerFlags(v, fieldName, flagSet, fieldV.Interface()) if err != nil { return err } continue } flagName := field.Tag.Get(\"flag\") if flagName == \"\" || cfgName == \"\" { return fmt.Errorf(\"field %q does not have required tags (cfg, flag)\", fieldName) } if flagSet == nil { return fmt.Errorf(\"flagset cannot be nil\") } f := flagSet.Lookup(flagName) if f == nil { return fmt.Errorf(\"field %q does not have a registered flag\", flagName) } err := v.BindPFlag(cfgName, f) if err != nil { return fmt.Errorf(\"error binding flag for field %q: %w\", fieldName, err) } } return nil }",
+  "func LoadYAML {",
+  "{ buffer, err := loadAndParseYaml(configFileName) if err != nil { return err } if err := yaml.UnmarshalStrict(buffer, into, yaml.DisallowUnknownFields); err != nil { return fmt.Errorf(\"error unmarshalling config: %w\", err) } return nil }",
+  "func loadAndParseYaml {",
+  "{ if configFileName == \"\" { return nil, errors.New(\"no configuration file provided\") } unparsedBuffer, err := os.ReadFile(configFileName) if err != nil { return nil, fmt.Errorf(\"unable to load config file: %w\", err) } buffer, err := envsubst.Bytes(unparsedBuffer) if err != nil { return nil, fmt.Errorf(\"error in substituting env variables : %w\", err) } return buffer, nil }",
+  "func AlphaOptions.MergeInto {",
+  "{ opts.UpstreamServers = a.UpstreamConfig opts.InjectRequestHeaders = a.InjectRequestHeaders opts.InjectResponseHeaders = a.InjectResponseHeaders opts.Server = a.Server opts.MetricsServer = a.MetricsServer opts.Providers = a.Providers }",
+  "func LegacyOptions.ToOptions {",
+  "{ upstreams, err := l.LegacyUpstreams.convert() if err != nil { return nil, fmt.Errorf(\"error converting upstreams: %v\", err) } l.Options.UpstreamServers = upstreams l.Options.InjectRequestHeaders, l.Options.InjectResponseHeaders = l.LegacyHeaders.convert() l.Options.Server, l.Options.MetricsServer = l.LegacyServer.convert() l.Options.LegacyPreferEmailToUser = l.LegacyHeaders.PreferEmailToUser providers, err := l.LegacyProvider.convert() if err != nil { return nil, fmt.Errorf(\"error converting provider: %v\", err) } l.Options.Providers = providers return &l.Options, nil }",
+  "func NewLegacyOptions {",
+  "{ return &LegacyOptions{ LegacyUpstreams: LegacyUpstreams{ PassHostHeader: true, ProxyWebSockets: true, FlushInterval: DefaultUpstreamFlushInterval, Timeout: DefaultUpstreamTimeout, }, LegacyHeaders: LegacyHeaders{ PassBasicAuth: true, PassUserHeaders: true, SkipAuthStripHeaders: true, }, LegacyServer: LegacyServer{ HTTPAddress: \"127.0.0.1:4180\", HTTPSAddress: \":443\", }, LegacyProvider: LegacyProvider{ ProviderType: \"google\", AzureTenant: \"common\", ApprovalPrompt: \"force\", UserIDClaim: \"email\", OIDCEmailClaim: \"email\", OIDCGroupsClaim: \"groups\", OIDCAudienceClaims: []string{\"aud\"}, OIDCExtraAudiences: []string{}, InsecureOIDCSkipNonce: true, }, Options: *NewOptions(), } }",
+  "func NewOptions {",
+  "{ return &Options{ ProxyPrefix: \"/oauth2\", Providers: providerDefaults(), PingPath: \"/ping\", ReadyPath: \"/ready\", RealClientIPHeader: \"X-Real-IP\", ForceHTTPS: false, Cookie: cookieDefaults(), Session: sessionOptionsDefaults(), Templates: templatesDefaults(), SkipAuthPreflight: false, Logging: loggingDefaults(), } }"] : List String) := rfl
+
 end O2P.Expect.C15
